@@ -1,0 +1,64 @@
+//go:build verif
+
+package piece
+
+import (
+	"sync/atomic"
+
+	"github.com/jech/storrent/bitmap"
+	"github.com/jech/storrent/mono"
+)
+
+// VerifYield, when non-nil, is called at the named points of piece.go where the
+// store's lock is not held, so that a controller can order goroutines
+// deterministically.  Set it before any concurrent use.
+var verifYieldFn atomic.Value // func(point string, index uint32)
+
+func VerifSetYield(f func(point string, index uint32)) {
+	if f == nil {
+		f = func(string, uint32) {}
+	}
+	verifYieldFn.Store(f)
+}
+
+func verifYield(point string, index uint32) {
+	if f, ok := verifYieldFn.Load().(func(string, uint32)); ok && f != nil {
+		f(point, index)
+	}
+}
+
+// VerifPiece is a snapshot of one piece taken under the lock.
+type VerifPiece struct {
+	State   uint32 // 0 incomplete, 1 complete, 2 busy
+	HasData bool
+	DataLen int
+	Bitmap  bitmap.Bitmap
+	Peers   []uint32
+}
+
+func (ps *Pieces) VerifPiece(index uint32) VerifPiece {
+	ps.mu.RLock()
+	defer ps.mu.RUnlock()
+	p := &ps.pieces[index]
+	return VerifPiece{
+		State:   atomic.LoadUint32(&p.state),
+		HasData: p.data != nil,
+		DataLen: len(p.data),
+		Bitmap:  p.bitmap.Copy(),
+		Peers:   append([]uint32(nil), p.peers...),
+	}
+}
+
+func (ps *Pieces) VerifDeleted() bool {
+	ps.mu.RLock()
+	defer ps.mu.RUnlock()
+	return ps.deleted
+}
+
+// VerifPieceChunks exposes pieceChunks.
+func (ps *Pieces) VerifPieceChunks(index uint32) int { return ps.pieceChunks(index) }
+
+// VerifSetTime sets a piece's access time (eviction order tests).
+func (ps *Pieces) VerifSetTime(index uint32, seconds uint32) {
+	ps.pieces[index].SetTime(mono.Time(seconds))
+}
